@@ -1,17 +1,15 @@
-import os, sys, time, collections
-os.environ['SKGLM_VERIF']='1'
-sys.path.insert(0,'/verif')
+import sys, time, json
+sys.path.insert(0, "/verif")
 from harness import core
-from harness.props import est_common
-fns = sys.argv[1:] or ["run_doc_objectives","run_classifiers","run_purity","run_warm_refits","run_n_iter","run_containers"]
-for fn in fns:
-    ctx=core.Ctx("C11","quick",int(os.environ.get("VERIF_SEED","0"))); rep=core.Report("C11")
-    t0=time.time()
-    getattr(est_common,fn)(ctx,rep)
-    print(fn, round(time.time()-t0,1), rep.evaluations, "violations", len(rep.violations))
-    seen=collections.Counter()
-    for v in rep.violations:
-        k=(v['signature'].get('estimator'), v['signature'].get('kind'), v['signature'].get('container'))
-        seen[k]+=1
-        if seen[k]==1: print("   ", k, v['what'][:140], str(v.get('oracle'))[:120], str(v.get('impl_output'))[:200], str(v.get('history'))[:100])
-    print("   ", dict(seen))
+from harness.props import est_common as E
+fn = sys.argv[1]; seed = int(sys.argv[2]) if len(sys.argv) > 2 else 0
+ctx = core.Ctx("C18", "quick", seed); rep = core.Report("C18")
+t = time.time(); getattr(E, fn)(ctx, rep)
+print(fn, "evals", rep.evaluations, "dis", len(rep.disagreements), "viol", len(rep.violations), f"{time.time()-t:.1f}s")
+for k, v in sorted(rep.hist.items()): print("  ", k, v)
+for d in rep.disagreements[:3]: print("DIS", json.dumps({k: d[k] for k in ("slice", "line", "impl", "model")}, default=str)[:600])
+seen = set()
+for v in rep.violations:
+    key = v["what"][:100]
+    if key in seen: continue
+    seen.add(key); print("VIOL", v["what"][:300], v["signature"], str(v.get("impl_output"))[:300])
